@@ -240,6 +240,119 @@ theorem decodeFields_sound (body : Bytes) (r : DecodedRrq) (h : decodeFields bod
               · have := pairUp_even rest opts hp
                 simp only [List.length_cons]; omega
 
+/-! ### a transfer only for the RFC shape (stated on the bytes, independent of `splitNul`) -/
+
+theorem encodeFields_cons (f : Bytes) (fs : List Bytes) :
+    encodeFields (f :: fs) = f ++ 0 :: encodeFields fs := by
+  simp [encodeFields]
+
+theorem encodeFields_getLast : ∀ (fields : List Bytes), fields ≠ [] →
+    (encodeFields fields).getLast? = some 0
+  | [], h => absurd rfl h
+  | [f], _ => by simp [encodeFields]
+  | f :: g :: r, _ => by
+    have ih := encodeFields_getLast (g :: r) (by simp)
+    rw [encodeFields_cons, List.getLast?_append, List.getLast?_cons]
+    simp [ih]
+
+theorem count_zero_nulFree (f : Bytes) (h : nulFree f = true) : f.count 0 = 0 := by
+  rw [List.count_eq_zero]
+  intro hm
+  have := List.all_eq_true.mp h 0 hm
+  simp at this
+
+theorem count_encodeFields : ∀ (fields : List Bytes), fields.all nulFree = true →
+    (encodeFields fields).count 0 = fields.length
+  | [], _ => by simp [encodeFields]
+  | f :: fs, h => by
+    simp only [List.all_cons, Bool.and_eq_true] at h
+    rw [encodeFields_cons, List.count_append, count_zero_nulFree f h.1, List.count_cons_self,
+      count_encodeFields fs h.2]
+    simp
+
+theorem takeWhile_field (f rest : Bytes) (h : nulFree f = true) :
+    (f ++ 0 :: rest).takeWhile (· != 0) = f := by
+  induction f with
+  | nil => simp
+  | cons x xs ih =>
+    simp only [nulFree, List.all_cons, Bool.and_eq_true] at h
+    simp only [List.cons_append, List.takeWhile_cons, h.1, if_true]
+    rw [ih (by simpa [nulFree] using h.2)]
+
+theorem dropWhile_field (f rest : Bytes) (h : nulFree f = true) :
+    (f ++ 0 :: rest).dropWhile (· != 0) = 0 :: rest := by
+  induction f with
+  | nil => simp
+  | cons x xs ih =>
+    simp only [nulFree, List.all_cons, Bool.and_eq_true] at h
+    simp only [List.cons_append, List.dropWhile_cons, h.1, if_true]
+    rw [ih (by simpa [nulFree] using h.2)]
+
+theorem fieldAt_encodeFields : ∀ (fields : List Bytes) (k : Nat) (f : Bytes), fields.all nulFree = true →
+    fields[k]? = some f → fieldAt (encodeFields fields) k = f
+  | [], _, _, _, h => by simp at h
+  | g :: gs, 0, f, hn, h => by
+    simp only [List.all_cons, Bool.and_eq_true] at hn
+    simp only [List.getElem?_cons_zero, Option.some.injEq] at h
+    subst h
+    rw [encodeFields_cons, fieldAt, takeWhile_field _ _ hn.1]
+  | g :: gs, k + 1, f, hn, h => by
+    simp only [List.all_cons, Bool.and_eq_true] at hn
+    simp only [List.getElem?_cons_succ] at h
+    rw [encodeFields_cons, fieldAt, dropWhile_field _ _ hn.1]
+    simpa using fieldAt_encodeFields gs k f hn.2 h
+
+/-- whatever the decoder accepts has the RFC shape as stated on the bytes -/
+theorem decodeFields_rfcShape (hi lo : UInt8) (body : Bytes) (r : DecodedRrq)
+    (hop : unbe16 hi lo = opRRQ) (h : decodeFields body = some r) :
+    rfcShape (hi :: lo :: body) = true := by
+  obtain ⟨fields, hb, hn, h2, hev, _, hm⟩ := decodeFields_sound body r h
+  have hne : fields ≠ [] := by intro h0; simp [h0] at h2
+  cases h1 : fields[1]? with
+  | none => simp [h1] at hm
+  | some m =>
+    simp only [h1, Option.bind_some] at hm
+    subst hb
+    simp [rfcShape, hop, encodeFields_getLast fields hne, count_encodeFields fields hn,
+      fieldAt_encodeFields fields 1 m hn h1, hm, h2, hev]
+
+/-- **a transfer only for an RFC read request**: whatever the datagram and whatever the handlers accept,
+the request port answers with at most one well-formed ERROR packet or a transfer, and it starts a
+transfer only when the delivered bytes are opcode 1 followed by an even number >= 2 of NUL-terminated
+fields, the second a mode name, with nothing after the last terminator -/
+theorem requestPort_transfer_only_rfc (accepts : List Char → List Bool) (data : Bytes) :
+    requestPortOK2 data (replyOf (processDatagram accepts data)) (transfersOf (processDatagram accepts data))
+      false = true := by
+  unfold requestPortOK2
+  rw [requestPort_reply_le_one]
+  cases h : processDatagram accepts data with
+  | ignored => simp [transfersOf]
+  | error c => simp [transfersOf]
+  | transfer rrq i =>
+    simp only [transfersOf, Bool.true_and, Nat.reduceBEq, Bool.false_or]
+    unfold processDatagram at h
+    split at h
+    · rename_i hi lo body heq
+      rw [heq]
+      simp only at h
+      by_cases hop : unbe16 hi lo = opRRQ
+      · cases hd : decodeFields body with
+        | none => simp [hop, hd] at h
+        | some r => exact decodeFields_rfcShape hi lo body r hop hd
+      · simp only [hop, if_false] at h
+        split at h
+        · simp at h
+        · split at h <;> simp at h
+    · simp at h
+
+/-- the RFC shape is met by a plain and by an option-carrying request, and missed by a request whose
+last option has no value, one without terminator, and one with a byte behind the terminator -/
+example : rfcShape [0, 1, 102, 0, 111, 99, 116, 101, 116, 0] = true
+    ∧ rfcShape [0, 1, 102, 0, 111, 99, 116, 101, 116, 0, 98, 0, 56, 0] = true
+    ∧ rfcShape [0, 1, 102, 0, 111, 99, 116, 101, 116, 0, 98, 0] = false
+    ∧ rfcShape [0, 1, 102, 0, 111, 99, 116, 101, 116] = false
+    ∧ rfcShape [0, 1, 102, 0, 111, 99, 116, 101, 116, 0, 7] = false := by decide
+
 /-! ### inside a transfer -/
 
 def allowLogOf : HandlerResult → Bool
